@@ -10,8 +10,11 @@
     satfunc.epsinv <cfg> <table> <unscaled> <scaled> <krn,…>     per value: twoPhaseSatKrnInv
     satfunc.hyst <cfg> <tableD> <uD> <sD> <tableI> <uI> <sI> <start> <history sw,…> <probe sw,…>
          answer   after each history step:  mdc/delta/krn(step sw)/krn(probe_1)/…
+    satfunc.killough <cfg> <tableD> <uD> <sD> <tableI> <uI> <sI> <Sncrd,Sncri,Snmaxd,modParam> <start> <history> <probes>
+         answer   for the initial state (probe 0.5) and after each history step:  mdc/Sncrt/krn(step sw)/krn(probe_1)/…
 -/
 import OpmVerif.Model.Hyst
+import OpmVerif.Model.Killough
 import OpmVerif.Model.PvtIO
 -- driver: prefix=satfunc handler=OpmVerif.Satfunc.handle
 
@@ -45,6 +48,15 @@ def hystSteps (cv : Curves Float) (probes : List Float) : State Float → List F
     ("/".intercalate ([showF st'.mdc, showF st'.delta, showF (krn cv st' sw)] ++ probes.map fun p => showF (krn cv st' p)))
       :: hystSteps cv probes st' rest
 
+def killoughShow (p : Killough.Static Float) (st : Killough.State Float) (sw : Float) (probes : List Float) : String :=
+  "/".intercalate ([showF st.mdc, showF st.Sncrt, showF (Killough.krn p st sw)] ++ probes.map fun q => showF (Killough.krn p st q))
+
+def killoughSteps (p : Killough.Static Float) (tiny : Float) (probes : List Float) : Killough.State Float → List Float → List String
+  | _, [] => []
+  | st, sw :: rest =>
+    let st' := Killough.update p tiny st sw
+    killoughShow p st' sw probes :: killoughSteps p tiny probes st' rest
+
 def handle (op : String) (args : List String) : String :=
   match op, args with
   | "satfunc.pl", [xs, ys, qs] =>
@@ -65,6 +77,17 @@ def handle (op : String) (args : List String) : String :=
     let cv := curves (parseCfg cfg) (parseTable tD) (parsePoints uD) (parsePoints sD)
                 (parseTable tI) (parsePoints uI) (parsePoints sI)
     " ".intercalate (hystSteps cv (parseList probes) (init cv (parseF start)) (parseList hist))
+  | "satfunc.killough", [cfg, tD, uD, sD, tI, uI, sI, stat, start, hist, probes] =>
+    let cv := curves (parseCfg cfg) (parseTable tD) (parsePoints uD) (parsePoints sD)
+                (parseTable tI) (parsePoints uI) (parsePoints sI)
+    let l := parseList stat
+    let snmaxd := l.getD 2 0
+    let p : Killough.Static Float :=
+      { Sncrd := l.getD 0 0, Sncri := l.getD 1 0, Snmaxd := snmaxd, KrndMax := cv.krnD (1 - snmaxd),
+        modParam := l.getD 3 0, krnD := cv.krnD, krnI := cv.krnI }
+    let tiny : Float := 1.0e-12
+    let st := Killough.init p tiny (parseF start)
+    " ".intercalate (killoughShow p st 0.5 (parseList probes) :: killoughSteps p tiny (parseList probes) st (parseList hist))
   | _, _ => "bad-op"
 
 end OpmVerif.Satfunc
